@@ -227,9 +227,9 @@ class ProgGen:
         params = (['a', 'b', 'c'] if r.random() < 0.6 else r.sample(['a', 'x', 'y', 'g1', 'b'], 3))[:r.randint(1 if recursive else 0, 3)]
         if len(params) >= 2 and not recursive and r.random() < 0.12:
             params[r.randrange(1, len(params))] = params[0]         # a repeated parameter name (lint warns): the later position is the binding
-        last = bool(params) and not recursive and r.random() < 0.3
+        last = (bool(params) and not recursive and r.random() < 0.3) or (not params and r.random() < 0.25)       # `function f(...):` binds nothing
         types = {p: '?' for p in params}
-        if last:
+        if last and params:
             types[params[-1]] = 'a'
         if recursive:
             types[params[0]] = 'n'
@@ -248,13 +248,13 @@ class ProgGen:
             if r.random() < 0.4:
                 # a parameter read as a direct operand (it may be null - a missing argument - while a global of the same name is not)
                 body.append(log_stmt(('bin', '+', sq(pname + '?'), ('group', ('bin', r.choice(['==', '!=', '<']), ('var', pname), r.choice([('var', 'null'), num(1)]))))))
-        if last and r.random() < 0.6:
+        if last and params and r.random() < 0.6:
             # the "..." array is changed in place (and sometimes handed back): every call gets its own array, also a call that passes no
             # variadic arguments at all
             body.append(('expr', call('arrayPush', ('var', params[-1]), self.expr(fctx, 'num', 1))))
             body.append(log_stmt(call('arrayLength', ('var', params[-1]))))
         body += self.block(fctx, min(depth - 1, 2), r.randint(1, 4))
-        if last and r.random() < 0.3:
+        if last and params and r.random() < 0.3:
             body.append(('return', ('var', params[-1])))
         if saved_funcs is not None:
             self.funcs = saved_funcs
